@@ -1,4 +1,4 @@
-"""Symbol hierarchy for C13/C20: A, B(A), C(A), D(B, C) (diamond), E(B), unrelated Z."""
+"""Symbol hierarchy for C13/C20: A, B(A), C(A), D(B, C) (diamond), E(B), F(A) (falsy instances), unrelated Z."""
 from __future__ import annotations
 
 from dataclasses import dataclass
@@ -32,9 +32,17 @@ class E(B):
 
 
 @dataclass(eq=False)
+class F(A):
+    """an instance that is falsy (as a container-like Symbol with __len__ == 0 would be) is an instance all the same"""
+
+    def __bool__(self):
+        return False
+
+
+@dataclass(eq=False)
 class Z(Symbol):
     n: int = 0
 
 
-CLASSES = {"A": A, "B": B, "C": C, "D": D, "E": E, "Z": Z}
+CLASSES = {"A": A, "B": B, "C": C, "D": D, "E": E, "F": F, "Z": Z}
 SUBCLASSES = {k: {n for n, c in CLASSES.items() if issubclass(c, v)} for k, v in CLASSES.items()}
